@@ -135,6 +135,48 @@ func main(a, b [2]byte) ([]byte, uint8, bool) {
 `})
 }
 
+// failing are history programs whose compilation fails during code
+// generation, after their imports have been parsed and initialised.
+var failing = []string{`package main
+
+import (
+	"crypto/aes"
+	"encoding/hex"
+)
+
+func main(a, b [2]byte) []byte {
+	s := hex.EncodeToString(a[:])
+	return undefinedFunction(s, aes.BlockSize)
+}
+`, `package main
+
+import (
+	"bytes"
+	"crypto/hkdf"
+	"encoding/hex"
+	"math/bits"
+)
+
+func main(a, b [2]byte) (bool, uint16) {
+	s := hex.EncodeToString(b[:])
+	var x uint8 = bits.RotateLeft16(uint16(a[0]), 3)
+	return bytes.Equal([]byte(s), a[:]), x + noSuchVariable
+}
+`, `package main
+
+import (
+	"crypto/curve25519"
+	"encoding/binary"
+	"encoding/hex"
+)
+
+func main(a, b [4]byte) uint32 {
+	x := binary.GetUint32(a[:])
+	y := hex.EncodeToString(b[:])
+	return x + y
+}
+`}
+
 var corpus []stream.Program
 
 func programs() []stream.Program {
@@ -360,6 +402,10 @@ func (w *world) Run(t *rt.Tape, trace bool) *core.Result {
 			nh := t.Choose(rt.SGen, 4)
 			for h := 0; h < nh; h++ {
 				var hp stream.Program
+				if t.Choose(rt.SGen, 4) == 0 {
+					j.History = append(j.History, failing[t.Choose(rt.SGen, len(failing))])
+					continue
+				}
 				if t.Choose(rt.SGen, 2) == 0 {
 					hp = crafted[t.Choose(rt.SGen, len(crafted))]
 				} else {
